@@ -67,7 +67,7 @@ def construct(ver, s, rh=False, with_json=True, reparse=True, order=None, sub=Fa
     try:
         o = observe(obj, ver, with_json, order)
     except Exception as e:  # noqa - an accessor of an accepted vector that raises is an observation (the harness reports it under the property at hand)
-        return obj, {"cls": "accessor-raised", "e": exc_obs(e)}
+        return obj, {"cls": "accessor-raised", "e": exc_obs(e), "minor": getattr(obj, "minor_version", -1) if ver == "3" else -1}
     o["cls"] = "ok"
     o["minor"] = getattr(obj, "minor_version", -1) if ver == "3" else -1
     if reparse:
@@ -162,6 +162,17 @@ def main():
                 th.start()
                 th.join()
                 _, ev["out"] = box[0]
+            elif n % 9 == 8:          # every ninth event runs while the caller is handling an exception (and one more propagates through a finally)
+                try:
+                    try:
+                        raise RuntimeError("the caller's own exception")
+                    except RuntimeError:
+                        try:
+                            raise KeyError("a second one on its way out")
+                        finally:
+                            _, ev["out"] = construct(it["ver"], arg, rh=(op == "fromrh"), with_json=it.get("json", True), order=order)
+                except KeyError:
+                    pass
             else:
                 _, ev["out"] = construct(it["ver"], arg, rh=(op == "fromrh"), with_json=it.get("json", True), order=order, sub=(n % 7 == 6), clone=((n // 11) % 10 if n % 11 == 10 else None))
             if op == "fromrh":
@@ -175,7 +186,13 @@ def main():
                     ev["rest_out"] = {"cls": "none"}
         elif op == "text":
             try:
-                res = parse_cvss_from_text(unesc(it["text"]))
+                if n % 5 == 4:          # every fifth text is parsed while the caller is handling an exception
+                    try:
+                        raise RuntimeError("the caller's own exception")
+                    except RuntimeError:
+                        res = parse_cvss_from_text(unesc(it["text"]))
+                else:
+                    res = parse_cvss_from_text(unesc(it["text"]))
                 ev["out"] = {"cls": "ok", "res": [{"ver": VER.get(type(r), "?"), "vector": esc(r.vector), "clean": esc(r.clean_vector()),
                                                    "minor": getattr(r, "minor_version", -1) if isinstance(r, CVSS3) else -1} for r in res],
                              "type": type(res).__name__}
